@@ -146,7 +146,7 @@ theorem comparePackages_eq_iff (name pin : Text) (existing : List (Text × Pkg))
 
 /-! ## F08b: the pinned comparator is not antisymmetric -/
 
-def wA : Pkg := { id := 0, name := "pa".toList, version := "!!".toList, origin := [], repo := [], pin := [],
+def wA : Pkg := { id := 0, name := "pa".toList, version := "1.0".toList, origin := [], repo := [], pin := [],
                   priority := 0, deps := [], provides := ["virt=abc".toList], installIf := [] }
 def wB : Pkg := { wA with id := 1, name := "pb".toList, provides := ["virt=xyz".toList] }
 
